@@ -21,6 +21,8 @@ def run(tier, seed, jobs):
             {"mod": MOD, "cls": "CondModel", "params": {"n": 4, "notify": [1, 2]},
              "opts": {"pairs": False}, "max_depth": 8},
         ]
+    configs.append({"mod": MOD, "cls": "EventModel",
+                    "params": {"n": 2 if tier == "quick" else 3, "adapter": True}, "opts": o})
     cov, viol = run_models(configs, jobs, lambda c, v: c["cls"] + ":" + v["what"][0].split(";")[0][:120])
     cov["rule"] = (
         "states = canonical quiescent states of the real Event / Condition shared by commanded "
